@@ -55,7 +55,28 @@ def raise_exc(kind, msg=None):
         raise httpx.RemoteProtocolError("Server disconnected without sending a response." if msg is None else msg)
     if kind == "asyncio_timeout":
         raise asyncio.TimeoutError() if msg is None else asyncio.TimeoutError(msg)
+    if kind == "connect_timeout":
+        raise httpx.ConnectTimeout("timed out" if msg is None else msg)
+    if kind == "badstr":
+        raise BadStr()
+    if kind.startswith("py:"):
+        import builtins
+        cls = getattr(builtins, kind[3:])
+        if cls is OSError:
+            raise OSError(5, "Input/output error" if msg is None else msg)
+        if cls is UnicodeDecodeError:
+            raise UnicodeDecodeError("utf-8", b"\xff", 0, 1, "invalid start byte")
+        raise cls() if msg is None else cls(msg)
     raise ValueError(kind)
+
+
+class BadStr(Exception):
+    """an exception whose text cannot be produced"""
+
+    def __str__(self):
+        raise RuntimeError("str() of this exception fails")
+
+    __repr__ = __str__
 
 
 GARBAGE = ["not a message", 12345, ("tuple",), None]
@@ -91,7 +112,7 @@ def send_order(case):
     return sorted(idx, key=lambda k: (case["reqs"][k].get("delay", 0), k))
 
 
-def make_params(case):
+def make_params(case, url=None):
     from chuk_mcp.transports.http import StreamableHTTPParameters
     cfg = case.get("cfg") or {}
     kw = {}
@@ -101,10 +122,14 @@ def make_params(case):
         kw["bearer_token"] = cfg["bearer"]
     if cfg.get("mcr") is not None:
         kw["max_concurrent_requests"] = cfg["mcr"]
-    return StreamableHTTPParameters(url=URL, timeout=5.0, session_id=case.get("session0"), **kw)
+    # options the transport stores: they must not change what an answer is turned into
+    for name in ("enable_streaming", "max_retries", "retry_delay", "user_agent"):
+        if cfg.get(name) is not None:
+            kw[name] = cfg[name]
+    return StreamableHTTPParameters(url=url or URL, timeout=cfg.get("timeout", 5.0), session_id=case.get("session0"), **kw)
 
 
-async def _one_round(case, params, make_client_patch):
+async def _one_round(case, params, make_client_patch, start_delay=0):
     import contextlib
     import json
     import anyio
@@ -193,7 +218,7 @@ async def _one_round(case, params, make_client_patch):
                     waiters.append([k, "cancelled"])
 
             async def send_one(k):
-                await vsleep(reqs[k].get("delay", 0))
+                await vsleep(reqs[k].get("delay", 0) + start_delay)
                 if transport is not None and reqs[k].get("wait") and reqs[k].get("id") is not None:
                     asyncio.ensure_future(waiter(k))
                 await wr.send(outgoing(reqs[k], k))
@@ -213,7 +238,8 @@ async def _one_round(case, params, make_client_patch):
                         c = canon_delivered(m)
                         out.append(c)
                         if c["id"] == {"s": FENCE_ID} and c["kind"] in ("result", "error"):
-                            fence = True
+                            # the server's own answer to the last request, or something the transport made up for it
+                            fence = True if c["kind"] == "result" and c["payload"] == {"fence": True} else "synthesised"
                             break
                 tg.cancel_scope.cancel()
             if transport is not None:
@@ -238,24 +264,75 @@ async def _one_round(case, params, make_client_patch):
             "events": [[p["k"], p["a"], p["d"]] for p in posts], "posts": len(posts), "fence": fence}
 
 
+def _debug_logging():
+    """as a host application with logging configured at DEBUG (records go to a NullHandler);
+    returns the function that restores the previous state"""
+    import logging
+    root = logging.getLogger()
+    prev_disable, prev_level, prev_handlers = root.manager.disable, root.level, list(root.handlers)
+    root.handlers[:] = [logging.NullHandler()]
+    root.setLevel(logging.DEBUG)
+    logging.disable(logging.NOTSET)
+
+    def restore():
+        logging.disable(prev_disable)
+        root.setLevel(prev_level)
+        root.handlers[:] = prev_handlers
+    return restore
+
+
 async def _drive(case, make_client_patch):
+    import contextlib
     import os
+    import anyio
     cfg = case.get("cfg") or {}
     old = os.environ.get("MCP_BEARER_TOKEN")
     if cfg.get("env_bearer") is not None:
         os.environ["MCP_BEARER_TOKEN"] = cfg["env_bearer"]
     else:
         os.environ.pop("MCP_BEARER_TOKEN", None)
+    restore = _debug_logging() if case.get("debug") else None
     try:
-        params = make_params(case)
-        cfg_headers = [[k, v] for k, v in (params.headers or {}).items()]
-        obs = await _one_round(case, params, make_client_patch)
-        obs["cfg_headers"] = cfg_headers
-        if case.get("reuse"):
-            # the same parameters object used for a second connection
-            obs["round2"] = await _one_round(case, params, make_client_patch)
+        n = case.get("instances", 1)
+        if n <= 1:
+            params = make_params(case)
+            cfg_headers = [[k, v] for k, v in (params.headers or {}).items()]
+            obs = await _one_round(case, params, make_client_patch)
+            obs["cfg_headers"] = cfg_headers
+            if case.get("reuse"):
+                # the same parameters object used for a second connection
+                obs["round2"] = await _one_round(case, params, make_client_patch)
+            return obs
+        # several transports alive in one process, used concurrently with EQUAL ids: one scripted
+        # server per instance (told apart by host name), one patch for all
+        handlers = {}
+
+        async def dispatch(request):
+            return await handlers[request.url.host](request)
+
+        def register_for(host):
+            @contextlib.contextmanager
+            def register(handler):
+                handlers[host] = handler
+                yield
+            return register
+
+        results = [None] * n
+
+        async def one(j):
+            host = f"verif{j}.test"
+            results[j] = await _one_round(case, make_params(case, url=f"http://{host}/mcp"), register_for(host), start_delay=j)
+
+        with make_client_patch(dispatch):
+            async with anyio.create_task_group() as tg:
+                for j in range(n):
+                    tg.start_soon(one, j)
+        obs = results[0]
+        obs["others"] = results[1:]
         return obs
     finally:
+        if restore is not None:
+            restore()
         if old is None:
             os.environ.pop("MCP_BEARER_TOKEN", None)
         else:
@@ -300,8 +377,11 @@ class _MockPatch:
 
 
 def run_case(case):
+    import contextlib
+    import io
     try:
-        return vloop.run(_drive, case, _MockPatch, tie=case.get("tie", "events"))
+        with contextlib.redirect_stderr(io.StringIO()):   # the transport prints tracebacks for some failures
+            return vloop.run(_drive, case, _MockPatch, tie=case.get("tie", "events"))
     except BaseException as ex:  # the context manager itself failed
         if isinstance(ex, (KeyboardInterrupt, SystemExit)):
             raise
@@ -564,3 +644,86 @@ def run_stream(chunks, rid=7, fail=False):
         return vloop.run(main)
     except Exception as ex:
         return {"skipped": f"{type(ex).__name__}"}
+
+
+# ----------------------------------------------------------------------------- pristine processes
+
+class Zygote:
+    """A process forked before any case has run.  `run(case)` makes it fork a child that runs the one
+    case and reports the observation: the case is judged in a process no earlier case has touched
+    (class attributes, module-level caches, ... of the code under test are as after import).  Used
+    to confirm violations and to shrink them, so that every replay is a self-contained failing input."""
+
+    def __init__(self):
+        import json
+        import os
+        import atexit
+        c2z_r, c2z_w = os.pipe()
+        z2c_r, z2c_w = os.pipe()
+        pid = os.fork()
+        if pid == 0:
+            try:
+                os.close(c2z_w)
+                os.close(z2c_r)
+                import logging
+                logging.disable(logging.CRITICAL)
+                try:
+                    _transport_module()
+                except Exception:
+                    pass
+                rf = os.fdopen(c2z_r, "r", encoding="utf-8")
+                for line in rf:
+                    kid = os.fork()
+                    if kid == 0:
+                        try:
+                            res = run_case(json.loads(line))
+                        except BaseException as ex:  # noqa
+                            res = {"transcript": [], "hdrs": [], "posts": 0, "fence": False, "crash": type(ex).__name__}
+                        data = (json.dumps(res, default=str) + "\n").encode()
+                        while data:
+                            n = os.write(z2c_w, data)
+                            data = data[n:]
+                        os._exit(0)
+                    _, status = os.waitpid(kid, 0)
+                    if status != 0:
+                        os.write(z2c_w, (json.dumps({"transcript": [], "hdrs": [], "posts": 0, "fence": False, "crash": f"child exit {status}"}) + "\n").encode())
+            finally:
+                os._exit(0)
+        os.close(c2z_r)
+        os.close(z2c_w)
+        self._w = os.fdopen(c2z_w, "w", encoding="utf-8")
+        self._r = os.fdopen(z2c_r, "r", encoding="utf-8")
+        self._pid = pid
+        atexit.register(self.close)
+
+    def run(self, case):
+        import json
+        self._w.write(json.dumps(case) + "\n")
+        self._w.flush()
+        line = self._r.readline()
+        if not line:
+            return {"transcript": [], "hdrs": [], "posts": 0, "fence": False, "crash": "zygote died"}
+        return json.loads(line)
+
+    def close(self):
+        import os
+        try:
+            self._w.close()
+            os.waitpid(self._pid, 0)
+        except Exception:
+            pass
+
+
+_ZYGOTE = None
+
+
+def start_zygote():
+    global _ZYGOTE
+    if _ZYGOTE is None:
+        _ZYGOTE = Zygote()
+
+
+def run_pristine(case):
+    if _ZYGOTE is None:
+        return run_case(case)
+    return _ZYGOTE.run(case)
